@@ -110,6 +110,15 @@ CLAIMS = {
          "block, shadowing, location lists and frame selection are not covered.",
          "psABI Fig. 3.36 typed into the harness as oracle.",
          "Kani proofs on the real crate, full-domain symbolic inputs", "2/C19+C05"),
+ "C12": ("proof",
+         "Verus proof (any batch of queued events, any earlier history) of the real DebugSession::drain_events against a ghost record "
+         "of the events put on the wire: nothing is sent once `terminated` is latched; `terminated` is sent at most once and is the "
+         "last event; a process exit is announced as output*, process-end*, exited(code), terminated with the code of the batch; the "
+         "queue is empty afterwards. Scope: the lifecycle latch of event delivery only; one-response-per-request, sequence numbers "
+         "(a concurrency question across the forwarder threads), the 40 handlers and error responses are not covered.",
+         "send_events/emit_process_end/send_event* are assumed recorders of event kinds (serde_json + transport are external); "
+         "InternalEvent reduced to the variants the function distinguishes.",
+         "Verus modular proof with ghost wire history on the extracted real function", "4.1/C12"),
  "C10": ("proof",
          "Kani/CBMC proofs over all 31 signals that the quiet and transparent tables are exactly the sets of the property statement and "
          "that the signal-stop arm of apply_new_status queues every signal but SIGINT exactly once, at the back, with its thread, reports "
@@ -127,7 +136,6 @@ NA = {
  "C03": "step semantics are defined relative to the debuggee's real instruction trace and call depth; no function on the path has a postcondition expressible without the debuggee's execution semantics",
  "C09": "all-stop / exactly-once over thread interleavings is a kernel scheduling property; Kani has no concurrency, Verus would need permission types threaded through unchangeable code, and per-thread state lives in a std HashMap (out of CBMC's reach)",
  "C11": "statements about the process table, PTRACE_DETACH, SIGKILL/reaping and process re-creation: every step is a system call",
- "C12": "message order depends on the interleaving of the session thread with two forwarder threads, and one-response-per-request spans 40 handlers over serde_json and a live debugger; no thread support in Kani, no reachable sequential kernel",
  "C17": "PathSearchIndex is std HashMap entry API + string_interner + str::split behind a global Mutex: in Verus every step would be an assumed contract, a rewrite would be a model, and a bounded Kani probe did not terminate (6 min / 2.8 GB)",
  "C20": "decoding of tokio-internal layouts through DQE evaluation on a live process; nothing algorithmic of its own to put under contract",
 }
